@@ -13,8 +13,8 @@ RANKS = {"t1": 1, "t2": 2}
 
 def run(tier, seed, verdict):
     quick = tier != "thorough"
-    runs = [mr.ModelRun("MC_C05_q1.cfg" if quick else "MC_C05.cfg", seed, probes=("reopen",),
-                        name_pools=[0, 1, 2], stride=1 if quick else 8),
+    runs = [mr.ModelRun("MC_C05_q1.cfg" if quick else "MC_C05_quick.cfg", seed, probes=("reopen",),
+                        name_pools=[0, 1, 2], stride=1 if quick else 2),
             mr.ModelRun("MC_C02_relink4.cfg", seed + 2, probes=("reopen",), name_pools=[0, 1], stride=2 if quick else 1),
             mr.ModelRun("MC_SimSmall.cfg", seed + 3, probes=("reopen",), name_pools=[0, 1, 2],
                         simulate="num=%d" % (40 if quick else 400), depth=32),
